@@ -107,3 +107,81 @@ def check(tree, qual, which=0):
     if len(loop.generators) != 1:
         raise NotElementwise("nested comprehension")
     return True
+
+
+# ------------------------------------------------------------------------------------------------
+# prefix independence of the path-builder state (used by the parser obligations)
+# ------------------------------------------------------------------------------------------------
+ALLOWED_SEGMENT_READS = {
+    "len(self._segments)", "self._segments[-1]", "self._segments[0]", "self._segments[index]",
+    "self._segments[index + 1]", "self._segments[i]", "reversed(self._segments)", "self._segments.append(value)",
+    "Point(self._segments[-1].end)", "Point(self._segments[0].end)",
+    "isinstance( self._segments[-1], QuadraticBezier )", "isinstance( self._segments[-1], CubicBezier )",
+}
+BUILDER_FUNCS = ["current_point", "z_point", "smooth_point", "move", "line", "vertical", "horizontal", "smooth_quad",
+                 "quad", "smooth_cubic", "cubic", "arc", "closed", "append", "_validate_connection", "_validate_close",
+                 "parse", "start", "end"]
+
+
+_audit_cache = {}
+
+
+def audit_prefix_independence(tree, source):
+    key = id(tree)
+    if key not in _audit_cache:
+        try:
+            _audit_cache[key] = (True, _audit_prefix_independence(tree, source))
+        except NotElementwise as e:
+            _audit_cache[key] = (False, e)
+    ok, val = _audit_cache[key]
+    if not ok:
+        raise val
+    return val
+
+
+def _audit_prefix_independence(tree, source):
+    """The interpreter state of a path is read from the stored segment list only through: its length, its last two
+    elements, its first element, and two reverse scans that stop at the first Move / Close.  Hence a parser step on a
+    stored list depends on (last two elements, first matching element of the scan, first element) only - the
+    representative prefixes of the obligations enumerate those.  This audit checks that reading on the real AST."""
+    forms = set()
+    lines = source.split("\n")
+    for node in tree.body:
+        if isinstance(node, ast.ClassDef) and node.name == "Path":
+            for f in node.body:
+                if isinstance(f, ast.FunctionDef) and f.name in BUILDER_FUNCS:
+                    for n in ast.walk(f):
+                        if isinstance(n, (ast.Subscript, ast.Call)) and n.end_lineno - n.lineno <= 3:
+                            seg = _segment(lines, n)
+                            if seg and "_segments" in seg and len(seg) < 90:
+                                forms.add(" ".join(seg.split()))
+                        if isinstance(n, ast.Assign):
+                            for t in n.targets:
+                                if isinstance(t, ast.Attribute) and t.attr == "_segments":
+                                    raise NotElementwise("builder function %s replaces the segment list" % f.name)
+    extra = forms - ALLOWED_SEGMENT_READS
+    # compound expressions made only of allowed reads are fine (e.g. self._segments[index].end = ...)
+    extra = {e for e in extra if not any(e.startswith(a) or a in e for a in ALLOWED_SEGMENT_READS)}
+    if extra:
+        raise NotElementwise("unexpected reads of the segment list: %s" % sorted(extra))
+    for q in ("Path.z_point", "Path._validate_close"):
+        fn = find_function(tree, q)
+        loop = [n for n in ast.walk(fn) if isinstance(n, ast.For)][0]
+        if len(loop.body) != 2 and len(loop.body) != 1:
+            raise NotElementwise("%s: scan loop body changed" % q)
+        last = loop.body[-1]
+        if not isinstance(last, ast.If) or last.orelse:
+            raise NotElementwise("%s: scan loop is not `if match: ...; stop`" % q)
+        if not isinstance(last.body[-1], (ast.Break, ast.Return)):
+            raise NotElementwise("%s: scan loop does not stop at the first match" % q)
+    return True
+
+
+def _segment(lines, n):
+    if n.lineno == n.end_lineno:
+        return lines[n.lineno - 1].encode("utf-8")[n.col_offset:n.end_col_offset].decode("utf-8")
+    parts = [lines[n.lineno - 1].encode("utf-8")[n.col_offset:].decode("utf-8")]
+    for k in range(n.lineno, n.end_lineno - 1):
+        parts.append(lines[k])
+    parts.append(lines[n.end_lineno - 1].encode("utf-8")[:n.end_col_offset].decode("utf-8"))
+    return "\n".join(parts)
